@@ -87,7 +87,7 @@ for sma, meas in ((31.38, 0.23), (34.52, 0.28), (37.97, 0.33), (41.77, 0.40), (4
     check(abs(c20.sector_fraction(sma, 0.8, geo, thr=7.0) - meas) <= 0.05, f'sector_fraction eps 0.8 sma {sma}')
 check(c20.sector_fraction(21.44, 0.2, geo, thr=7.0) == 0.0 and c20.sector_fraction(28.53, 0.2, geo, thr=7.0) == 1.0,
       'sector_fraction eps 0.2')
-check(c20.sector_fraction(40.0, 0.2, dict(geo, growth='lin1.0')) == 0.0, 'linear step 1: sectors of ~1 px')
+check(c20.sector_fraction(40.0, 0.2, dict(geo, growth='lin1.0')) == 0.0, 'linear growth: annulus of 0.1 px (geometry astep), no sector with pixels')
 t2 = {'eps': 0.2}
 check(not c20.area_integrated(27.27, geo, t2) and c20.area_integrated(30.0, geo, t2)
       and not c20.area_integrated(30.0, dict(geo, mode='bilinear'), t2), 'area_integrated class')
